@@ -1,7 +1,7 @@
 #!/bin/bash
 # tools/run_all.sh [tier] [seed] : run every claimed check (4 at a time), print one line each
 tier="${1:-quick}"; seed="${2:-0}"
-cd /verif
+here="$(cd "$(dirname "$0")/.." && pwd)"; cd "$here"
 ids=$(python3 -c "import json;print(' '.join(c['property_id'] for c in json.load(open('MANIFEST.json'))['checks']))")
-mkdir -p /tmp/runall
-printf "%s\n" $ids | xargs -P 4 -I{} bash -c "VERIF_SEED=$seed ./check {} --tier $tier > /tmp/runall/{}.$tier.$seed.log 2>&1; echo {} rc=\$? \$(grep -E '^(SUMMARY|VIOLATION|INFRA)' /tmp/runall/{}.$tier.$seed.log | cut -c1-220 | tr '\n' ' ')"
+out="$here/runall_logs"; mkdir -p "$out"
+printf "%s\n" $ids | xargs -P 4 -I{} bash -c "VERIF_SEED=$seed ./check {} --tier $tier > $out/{}.$tier.$seed.log 2>&1; echo {} rc=\$? \$(grep -E '^(SUMMARY|VIOLATION|INFRA)' $out/{}.$tier.$seed.log | cut -c1-220 | tr '\n' ' ')"
